@@ -138,6 +138,19 @@ def make_c04_trace(job):
     g = {"eval": lambda: Gen(seed, "edit", p_lambda=0.4), "inh": lambda: GenInh(seed, "inherit"),
          "dyn": lambda: GenDyn(seed)}[kind]()
     defs = g.program()
+    # a cells whose NAME extends the name of another cells of the same space (c1 / c1x); it gets
+    # an assigned value early on, so the two differ in having a data file of their own
+    twin = None
+    owners = [(p, c) for p, cs in g.mir["cells"].items() for c in cs if cs[c].get("cached")]
+    if owners and rng.random() < 0.6:
+        p, c = rng.choice(owners)
+        t = c + "x"
+        if t not in g.sigs and all(t not in g.mir[k].get(p, {}) for k in ("cells", "refs")):
+            g.sigs[t] = g.sigs[c]
+            g.rank[t] = g.rank.get(c, 0)
+            g.mir["cells"][p][t] = dict(g.mir["cells"][p][c], cached=True)
+            defs = g.defs_json()
+            twin = (list(p), t)
     # decorate: literal / picklable reference values, docs
     sps = [tuple(p) for p in defs["sp"]]
     for i in range(rng.choice([1, 2, 3])):
@@ -173,6 +186,12 @@ def make_c04_trace(job):
                         qs.append([p, st, c, args])
             return qs[:40]
         k = 0
+        if twin:
+            op = {"op": "set_value", "c": [twin[0], [], twin[1]],
+                  "args": g.rand_args(twin[1], False), "v": 500}
+            ev = w.apply(op, deep=True)
+            g.update(op, ev["res"], ev)
+            evs.append(ev)
         for i in range(nops):
             if i in (nops // 2, nops - 1):
                 ev = w.apply({"op": "write_read", "queries": queries(), "chain": bool(opts.get("chain", k == 0)),
